@@ -97,7 +97,10 @@ def _lattice_coord(rng, s, allow_out):
 
 def gen_lattice(rng, interp):
   dims = rng.choice([1, 2, 2, 3, 3, 4])
-  if rng.random() < 0.35:
+  if interp == "hypercube" and rng.random() < 0.06:
+    dims = rng.choice([8, 9])     # the matmul branch of batch_outer_operation (more than 6 outer products)
+    sizes = [2] * dims
+  elif rng.random() < 0.35:
     sizes = [2] * dims
   else:
     sizes = [rng.choice([2, 3, 3, 4]) for _ in range(dims)]
@@ -130,8 +133,9 @@ def gen_lattice(rng, interp):
 def gen_pwl(rng):
   nk = rng.randint(2, 6)
   kp = [_dy(rng, -4, 0, 8)]
-  for _ in range(nk - 1):
-    kp.append(kp[-1] + rng.choice([0.125, 0.5, 0.75, 1.0, 1.5, 3.0]))
+  tiny_at = rng.randrange(nk - 1) if rng.random() < 0.15 else None   # a pair of keypoints 2^-22 apart
+  for j in range(nk - 1):
+    kp.append(kp[-1] + (2.0 ** -22 if j == tiny_at else rng.choice([0.125, 0.5, 0.75, 1.0, 1.5, 3.0])))
   units = rng.choice([1, 1, 2, 3])
   cyclic = nk >= 3 and rng.random() < 0.35   # a cyclic calibrator needs >= 2 free weights
   missing_form = rng.choice(["none", "none", "value", "tensor"])
@@ -147,6 +151,9 @@ def gen_pwl(rng):
     if c < 0.7: return _dy(rng, kp[-2], kp[-1], 16)   # last segment (the one a cyclic calibrator folds back)
     return _dy(rng, kp[0], kp[-1], 16)
   xs = [coord() for _ in range(units)]
+  if tiny_at is not None:
+    # a point strictly inside the 2^-22 piece (exact in float64): its weight is (x - kp) / 2^-22 = 1/4, 1/2 or 3/4
+    xs[rng.randrange(units)] = kp[tiny_at] + rng.choice([0.25, 0.5, 0.75]) * 2.0 ** -22
   if shared:
     xs = [xs[0]] * units
   is_missing = [float(rng.random() < 0.4) for _ in range(units)] if missing_form == "tensor" else None
